@@ -90,7 +90,13 @@ func (f *FSM) Release(kind string) {
 }
 
 func (f *FSM) ReleaseAll() {
-	for _, k := range []string{"apply", "snapshot", "restore", "read"} {
+	f.mu.Lock()
+	kinds := make([]string, 0, len(f.gate))
+	for k := range f.gate {
+		kinds = append(kinds, k)
+	}
+	f.mu.Unlock()
+	for _, k := range kinds {
 		f.Release(k)
 	}
 }
